@@ -1,0 +1,30 @@
+// Copyright 2017-2021 Lei Ni (nilei81@gmail.com) and other contributors.
+//
+// Licensed under the Apache License, Version 2.0 (the "License");
+// you may not use this file except in compliance with the License.
+// You may obtain a copy of the License at
+//
+//     http://www.apache.org/licenses/LICENSE-2.0
+//
+// Unless required by applicable law or agreed to in writing, software
+// distributed under the License is distributed on an "AS IS" BASIS,
+// WITHOUT WARRANTIES OR CONDITIONS OF ANY KIND, either express or implied.
+// See the License for the specific language governing permissions and
+// limitations under the License.
+
+//go:build verif
+// +build verif
+
+package rsm
+
+// VerifGateFn is set by verification harnesses (build tag verif) to pause a
+// goroutine at a named point between two critical sections, so that a chosen
+// interleaving with other goroutines can be replayed. It is nil, and the gates
+// do nothing, unless a harness installs it.
+var VerifGateFn func(name string, shardID uint64, replicaID uint64)
+
+func verifGate(name string, shardID uint64, replicaID uint64) {
+	if f := VerifGateFn; f != nil {
+		f(name, shardID, replicaID)
+	}
+}
